@@ -66,10 +66,7 @@ func (c *c02Worker) Run(path []SOp) (bfs.Outcome, error) {
 		return bfs.Outcome{}, err
 	}
 	out := bfs.Outcome{Obs: tr.Obs, Canon: CanonRecs(tr.Recs, c.keys...) + "|" + CanonPropMax(tr.Released, c.keys...)}
-	out.Viol = append(propInvariant(tr.Released), attInvariant(tr.Released)...)
-	for _, p := range tr.SigProblems {
-		out.Viol = append(out.Viol, bfs.Viol{Key: "sig:" + p, What: p})
-	}
+	out.Viol = propInvariant(tr.Released)
 	return out, nil
 }
 
